@@ -175,7 +175,7 @@ def observe(case: dict, pub, inp) -> dict:
             oenc(tov.tag_value if tov else None), oenc(tov.tag_unit if tov else None),
             enc(node.instruction_name), enc(getattr(node, "line", "") or ""), enc(args),
             encb(bool(node.has_argument)), encb(en["num_truthy"]), enc(en["tag_now"])]))
-    obs["ops"] = params + node_ops + ["agree", "analyze", "accept"]
+    obs["ops"] = params + node_ops + ["agree", "oracles", "analyze", "accept"]
     order = [n.position.line for n, _ in anodes if n.position.line in enodes]
     obs["accept"] = " ".join(f"{ln}:{enodes[ln]['static']}" for ln in order) or "none"
     return obs
@@ -206,9 +206,9 @@ def gen_cases(ctx: Check) -> list[dict]:
     from harness import c20_gen as G
     rng = ctx.rng
     cases = [dict(c["case"], kind="corpus") for c in load_corpus("C20")]
-    for _ in range(ctx.n(25, 600)):
+    for _ in range(ctx.n(40, 1500)):
         spec = G.gen_spec(rng)
-        for _ in range(ctx.n(8, 12)):
+        for _ in range(ctx.n(10, 12)):
             cases.append({"spec": spec, "pcode": G.gen_method(rng, spec, rng.randrange(2, ctx.n(9, 12))),
                           "kind": "generated"})
     return cases
@@ -266,8 +266,8 @@ def run(ctx: Check) -> int:
 
     def impl(c):
         o = obs_of(c)
-        n = len(definition_ops(pub_of(c["spec"])[0])) + len(o["ops"]) - 3
-        return ["ok"] * n + ["ok", o["analysis"], o["accept"]]
+        n = len(definition_ops(pub_of(c["spec"])[0])) + len(o["ops"]) - 4
+        return ["ok"] * n + ["ok", "ok", o["analysis"], o["accept"]]
 
     pubcases = [{"spec": c["spec"], "pcode": c["pcode"], "kind": c["kind"]} for c in cases]
     by = {id(p): c for p, c in zip(pubcases, cases)}
@@ -316,6 +316,8 @@ def run(ctx: Check) -> int:
         "units come from units.py as imported (no add_unit); the custom parser of generated 'custom' commands accepts "
         "digit strings only",
         "Python `re`, `int()` and Levenshtein.ratio are parameters of the model, transmitted per case",
+        "unit names outside units.py's table that pint nevertheless understands (e.g. 'sec') are not generated: the model "
+        "knows pint only through the regenerated table (the analyzer rejects such units anyway)",
     ]
     return ctx.finish()
 
@@ -347,7 +349,7 @@ def replay(obj) -> int:
         print(f"  {i}: {ln!r}")
     print(f"analyzer ERROR items (all analyzers): {o['all_errors']}")
     print(f"implementation: items = {o['analysis']}\n                accept = {o['accept']}")
-    print(f"model:          items = {m[0][-2]}\n                accept = {m[0][-1]}   (parsers agree: {m[0][-3]})")
+    print(f"model:          items = {m[0][-2]}\n                accept = {m[0][-1]}   (parsers agree: {m[0][-4]}, oracle facts: {m[0][-3]})")
     print(f"model (before fixes): items = {m[1][-2]}\n                accept = {m[1][-1]}")
     print(f"engine run: {o['run']['failure'] or 'no method error'}  (lines started: {o['run'].get('started')})")
     fails = judge(c, o)
